@@ -46,8 +46,8 @@ Proof. vm_compute. split; reflexivity. Qed.
    (record in the history - snapshot of the live observers - j's live callback) with j's subscribe steps. *)
 From RX Require Import ConcHist.
 From RXP Require Import HistConc.
-From RX Require Import ConcClose.
-From RXP Require Import CloseConc.
+From RX Require Import ConcClose ConcReplayClose.
+From RXP Require Import CloseConc ReplayCloseConc.
 
 (* ReplaySubject: once the replay is over j has received positions 0..k-1 of the history in push order followed by
    live items; for every producer not in the middle of a push j has received ALL its items, each exactly once, in
@@ -138,6 +138,26 @@ Example C12_known_D23_witness :
 Proof. exact two_section_close_loses_a_subscriber. Qed.
 Example C12_close_example :
   let c := clrun [ClJoin; ClSnap; ClNotify] (clinit true) in cl_joined c = true /\ cl_done c = true /\ cl_notified c = true.
+Proof. vm_compute. repeat split. Qed.
+
+(* ReplaySubject::complete / error racing a subscriber (Model/ConcReplayClose.v: the terminal is stored, the live observers are taken
+   out in one section and notified; the newcomer registers its forwarder, replays the history and either finds the stored terminal
+   or goes live): under every interleaving a newcomer whose subscribe and whose closer have both finished has been handed the
+   terminal EXACTLY once - by the replay or live, never by both and never by neither. *)
+Theorem C12_replay_close_hands_over_the_terminal_once :
+  forall acts, let c := rcrun acts rcinit in
+  rc_replayed c = true -> rc_notified c = true ->
+  (rc_got_replay c = true /\ rc_got_live c = false) \/ (rc_got_replay c = false /\ rc_got_live c = true).
+Proof. exact replay_close_hands_over_the_terminal_once. Qed.
+Check C12_replay_close_hands_over_the_terminal_once :
+  forall acts, let c := rcrun acts rcinit in
+  rc_replayed c = true -> rc_notified c = true ->
+  (rc_got_replay c = true /\ rc_got_live c = false) \/ (rc_got_replay c = false /\ rc_got_live c = true).
+Print Assumptions C12_replay_close_hands_over_the_terminal_once.
+Example C12_replay_close_examples :
+  rc_got_live (rcrun [RcJoin; RcReplay; RcFlag; RcDrain; RcNotify] rcinit) = true /\
+  rc_got_replay (rcrun [RcFlag; RcJoin; RcDrain; RcNotify; RcReplay] rcinit) = true /\
+  rc_got_replay (rcrun [RcFlag; RcDrain; RcNotify; RcJoin; RcReplay] rcinit) = true.
 Proof. vm_compute. repeat split. Qed.
 
 (* Non-vacuity: the item 10 is recorded before j's replay and broadcast after it - the window of the repaired defect
